@@ -40,6 +40,25 @@ def check_port(ctx, backend, route, scheme, port, host, ui):
         p = None if port in (None, "") else (int(port) if valid else None)
         s = "%s//%s%s%s/p" % (scheme + ":" if scheme else "", ui, htext, "" if port is None else ":" + port)
         make = lambda: URL(s)  # noqa: E731
+    elif route == "ctor-enc":
+        # encoded=True: the authority is kept as written; the port accessors and the string form must still agree with the written port
+        valid = port is None or port == "" or (port.isascii() and port.isdigit() and int(port) <= 65535)
+        p = None if port in (None, "") else (int(port) if valid else None)
+        s = "%s//%s%s%s/p" % (scheme + ":" if scheme else "", ui, htext, "" if port is None else ":" + port)
+        if not valid:
+            ctx.case(False, label="skipped:not-applicable")
+            return
+        u = URL(s, encoded=True)
+        ctx.case(p in NEAR or host >= 3 or bool(ui), label=route)
+        default = D.get(scheme)
+        is_def = p is None or p == default
+        ctx.check(u.explicit_port == p and u.port == (p if p is not None else default) and u.is_default_port() is is_def, "port accessors of a verbatim URL wrong",
+                  observed=[u.explicit_port, u.port, u.is_default_port()], expected=[p, p if p is not None else default, is_def], entry=route)
+        ctx.check(u.host_port_subcomponent == _exp_hps(hps, p, scheme), "host_port_subcomponent wrong", observed=u.host_port_subcomponent, expected=_exp_hps(hps, p, scheme), entry=route)
+        v = URL(str(u))
+        ctx.check(v.port == (p if p is not None else default) and v.explicit_port == (None if is_def else p) and v.raw_host == hraw, "str() of a verbatim URL re-parses with a different port/host",
+                  observed={"str": str(u), "port": v.port, "explicit": v.explicit_port, "host": v.raw_host}, expected=[p, hraw], entry=route)
+        return
     elif route == "build":
         valid = port is None or (type(port) is int and 0 <= port <= 65535)
         p = port if valid else None
@@ -156,6 +175,7 @@ def matrix(ctx, backend):
             ctx.run("port", backend=backend, route="build-authority", scheme=scheme, port=port, host=host, ui=ui)
             ctx.run("port", backend=backend, route="with_scheme", scheme=scheme, port=port, host=host, ui=ui)
             ctx.run("port", backend=backend, route="with_scheme-fresh", scheme=scheme, port=port, host=host, ui=ui)
+            ctx.run("port", backend=backend, route="ctor-enc", scheme=scheme, port=port, host=host, ui=ui)
         for port in obj_ports:
             ctx.run("port", backend=backend, route="build", scheme=scheme, port=port, host=host, ui=ui)
             ctx.run("port", backend=backend, route="with_port", scheme=scheme, port=port, host=host, ui=ui)
